@@ -26,6 +26,57 @@ PROPS = {
             "the canonical-representative law is checked for relationships whose four names are non-empty and that are not their own inverse",
         ],
     ),
+    "C01": dict(
+        regress="TestC01Regress",
+        subs=[dict(test="TestC01RoundTrip", quick=8000, thorough=60000)],
+        rule="Generated coherent schema (1-4 types, soft or reflect.StructOf-backed through BuildType, 1 in 6 types carrying all 28 kinds), "
+             "one resource with boundary-biased values (width min/max, uint64>2^63, hostile/NUL/astral strings, zoned sub-second times in "
+             "years 1..9999, empty and binary byte strings, typed nil and non-nil nullable values, to-many lists incl. repeated IDs), marshaled "
+             "via MarshalResource / MarshalDocument single / collection member and unmarshaled against the same schema; oracle = typed value "
+             "equality against a snapshot taken before marshaling. Non-trivial = some attribute non-zero AND some special class (width boundary, "
+             "uint64>2^63, JSON-escaped or multi-byte string, zoned/sub-second time, non-nil nullable, to-many>=2). Distinct = distinct case descriptions.",
+        assumptions=COMMON_ASSUMPTIONS + ["valid UTF-8 only; whole-minute zone offsets; a non-nil pointer to a nil byte slice is not generated (outside C01's domain)"],
+    ),
+    "C02": dict(
+        regress="TestC02Regress",
+        subs=[dict(test="TestC02RoundTrip", quick=5000, thorough=40000)],
+        rule="Generated documents: primary data nil / resource / Resources (mixed types) / SoftCollection / WrapperCollection / Identifier / "
+             "Identifiers, 0-5 included, JSON-model meta, 0-3 error objects with any subset of members, any prefix, arbitrary selections "
+             "(absent, empty, subset, unknown names, id, duplicates) and RelData; oracle = member-by-member comparison of the unmarshaled document "
+             "with the generator's model (kind, type/ID sequence, selected values, included set, JSON-equal meta, error objects, no data with errors). "
+             "Non-trivial = data not nil and (>=2 members or >=1 included or non-empty meta or >=2 errors).",
+        assumptions=COMMON_ASSUMPTIONS + ["an Identifier comes back as a field-less resource with the same type and ID ('same kind' = null/single/list)"],
+    ),
+    "C03": dict(
+        regress="TestC03Regress",
+        subs=[dict(test="TestC03WellFormed", quick=5000, thorough=40000)],
+        rule="Documents as in C02 (without pre-filled included) plus primary *Resources obtained from Range, document links, and a sequence of 0-10 "
+             "Include calls whose arguments are primary members, equal-content twins, earlier arguments and fresh resources; oracle = independent "
+             "JSON:API structure validator over the output bytes (valid JSON, jsonapi, links.self, data xor errors, included only with data, "
+             "type/id strings, self link = prefix+type+/+id, relationship links and linkage shapes) and no (type,id) pair twice across resource "
+             "objects of data and included. Non-trivial = an Include argument duplicating a primary/earlier resource, a JSON-escaped ID, or errors "
+             "and data both set.",
+        assumptions=COMMON_ASSUMPTIONS + ["resource identifier objects in primary data are not counted as resource objects for the no-duplicate rule",
+                                          "self links may use the raw or the path-escaped ID"],
+    ),
+    "C04": dict(
+        regress="TestC04Regress",
+        subs=[dict(test="TestC04Fieldsets", quick=5000, thorough=40000)],
+        rule="Documents as in C02 without errors; for every resource object (primary, member, included; several types per document) the oracle "
+             "computes from type, selection list, RelData list and resource values: the exact attribute and relationship key sets, whether each "
+             "relationship carries data, and the linkage (IDs as multiset with the target type, null for empty to-one). Non-trivial = a strict "
+             "non-empty subset selected for some type present AND >=2 different selections in the output.",
+        assumptions=COMMON_ASSUMPTIONS,
+    ),
+    "C11": dict(
+        regress="TestC11Regress",
+        subs=[dict(test="TestC11Deterministic", quick=3000, thorough=25000)],
+        rule="Documents as in C02 with pairwise distinct included IDs; each is marshaled 6 times (fresh map iteration order each time) and once more "
+             "as an equal-content twin with to-many IDs, selection names, RelData names and the included list permuted; oracle = byte identity of all "
+             "outputs, equal URL.String, and an observable-state snapshot (all Get values, to-many as multisets, URL selection as sets) equal before "
+             "and after. Non-trivial = the permutation changed a list of length>=2 AND some resource exposes >=2 attributes or >=2 relationships.",
+        assumptions=COMMON_ASSUMPTIONS + ["map iteration order is sampled by the Go runtime, not enumerated (DESIGN §6 C11 gives the probability bound)"],
+    ),
 }
 
 LEVEL_NOTE = ("Trusted base: Go toolchain and runtime, encoding/json, reflect, rapid v1.3.0, the harness' own generators and "
@@ -33,6 +84,31 @@ LEVEL_NOTE = ("Trusted base: Go toolchain and runtime, encoding/json, reflect, r
               "violation is not a proof.")
 
 MANIFEST_TEXT = {
+    "C01": dict(
+        technique="property-based testing (rapid): round-trip oracle over generated schemas, types and boundary-biased values",
+        level_text="Exploration: tens of thousands of generated resources over all 28 kinds in both implementations, compared field by field with a pre-marshal snapshot.",
+        level_note=LEVEL_NOTE,
+    ),
+    "C02": dict(
+        technique="property-based testing (rapid): document round-trip oracle against the generator's model",
+        level_text="Exploration: generated documents of every primary-data kind with included, meta and errors; the unmarshaled document is compared member by member with the model.",
+        level_note=LEVEL_NOTE,
+    ),
+    "C03": dict(
+        technique="property-based testing (rapid): independent JSON:API structure validator + Include call sequences",
+        level_text="Exploration: every marshaled output of generated documents and Include histories is validated structurally and for duplicate type/ID pairs.",
+        level_note=LEVEL_NOTE,
+    ),
+    "C04": dict(
+        technique="property-based testing (rapid): model-computed field sets and linkage per resource object",
+        level_text="Exploration: the expected attribute/relationship key sets and relationship data are computed from the inputs alone and compared with every resource object of the output.",
+        level_note=LEVEL_NOTE,
+    ),
+    "C11": dict(
+        technique="property-based testing (rapid): repeat + metamorphic permutation + non-mutation snapshot",
+        level_text="Exploration: byte identity under repetition (map order re-randomised by the runtime) and under permutation of order-irrelevant inputs, plus a before/after snapshot.",
+        level_note=LEVEL_NOTE,
+    ),
     "C16": dict(
         technique="property-based testing (rapid) of algebraic laws + exhaustive enumeration of a finite sub-space + model-based check of Schema.Rels",
         level_text="Exploration: the value-level laws are enumerated exhaustively over a 9 604-value sub-space and sampled beyond it; "
